@@ -62,8 +62,9 @@ CLAIMED = {
         "pieces tile the sequential operation list without gap or overlap), rec_concat, appended_transparent(_rs), chunks_shape "
         "(determine_thread_chunks yields consecutive chunks covering the body). For arbitrary layouts handover_segment / chunk_simulates "
         "prove the parser half only. The hypotheses are exactly the line discipline LD1-LD5 outside which the property is FALSE on this "
-        "code (7 known findings with witnesses, re-confirmed on every run). Not covered by the end-to-end theorem: real/string signals "
-        "(storage half proved), bodies that start with changes at the implicit time 0, several token groups per line. Those, and the tie "
+        "code (7 known findings with witnesses, re-confirmed on every run). read_values_mt_equals_st_rs is the same theorem for "
+        "real-valued and string-valued variables. Not covered by the end-to-end theorems: bodies that start with changes at the "
+        "implicit time 0, several token groups per line. Those, and the tie "
         "of the model to vcd.rs/wavemem.rs, are decided by the correspondence run: the extracted model against the real multi-threaded "
         "loader (MIN_CHUNK_SIZE override hook, rayon pools of 1..16 threads) with a chunk boundary swept over every byte alignment, "
         "production chunking on 16 KiB..MiB bodies, recordings of 70000..200000 time steps; oracle: equals the single-threaded "
